@@ -152,6 +152,7 @@ type fnGen struct {
 	frameAll        bool
 	timeoutMs       int
 	errGlobals      []string
+	wantRetry       func(string) bool
 }
 
 type guardProv struct {
@@ -562,10 +563,7 @@ func (g *fnGen) load(st *state, a *addr, instr ssa.Instruction) string {
 		return g.readElem(st, a.elemT, a.base, a.idx)
 	case a.isField:
 		if a.sharedDecl != nil {
-			// unstable: every read yields a fresh value
-			v := g.freshConst("unstable", g.R.sortOf(a.typ))
-			g.typeFacts(st, v, a.typ)
-			return v
+			g.sharedAccessObligation(st, a.sharedDecl, false, instr)
 		}
 		if a.prov != nil {
 			g.guardObligation(st, a.prov, false, instr)
@@ -576,9 +574,7 @@ func (g *fnGen) load(st *state, a *addr, instr ssa.Instruction) string {
 		return g.readField(st, a.structT, a.field, a.ref)
 	default:
 		if a.sharedDecl != nil {
-			v := g.freshConst("unstable", g.R.sortOf(a.typ))
-			g.typeFacts(st, v, a.typ)
-			return v
+			g.sharedAccessObligation(st, a.sharedDecl, false, instr)
 		}
 		if a.immGlobal != nil {
 			return g.immutableGlobalValue(a.immGlobal)
@@ -616,7 +612,7 @@ func (g *fnGen) store(st *state, a *addr, val string, instr ssa.Instruction) {
 		g.writeElem(st, a.elemT, a.base, a.idx, val)
 	case a.isField:
 		if a.sharedDecl != nil {
-			g.sharedWriteObligation(st, a.sharedDecl, instr)
+			g.sharedAccessObligation(st, a.sharedDecl, true, instr)
 		}
 		if a.prov != nil {
 			g.guardObligation(st, a.prov, true, instr)
@@ -629,7 +625,7 @@ func (g *fnGen) store(st *state, a *addr, val string, instr ssa.Instruction) {
 		g.writeField(st, a.structT, a.field, a.ref, val)
 	default:
 		if a.sharedDecl != nil {
-			g.sharedWriteObligation(st, a.sharedDecl, instr)
+			g.sharedAccessObligation(st, a.sharedDecl, true, instr)
 		}
 		g.frameObligation(st, "cell", a.ptr, g.cellArrayName(a.typ), instr)
 		g.storeAt(st, a.typ, a.ptr, val)
@@ -1499,7 +1495,14 @@ func (g *fnGen) instrEffects(ins ssa.Instruction, li *loopInfo) {
 	case *ssa.Next:
 		li.modRegs[x.Iter] = true
 	case *ssa.Send:
-		g.modArr(li, "G!chanclosed", "(Array Int Bool)")
+		g.modArr(li, "G!chansends", "(Array Int Int)")
+		g.modArr(li, "G!chanlastsent", "(Array Int Iface)")
+	case *ssa.UnOp:
+		if x.Op == token.ARROW {
+			g.modArr(li, "G!chanrecvs", "(Array Int Int)")
+			g.modArr(li, "G!chanlastrecv", "(Array Int Iface)")
+			g.modArr(li, "G!chanlastok", "(Array Int Bool)")
+		}
 	case *ssa.Call, *ssa.Defer, *ssa.Go:
 		li.modAlloc = true
 		var cc *ssa.CallCommon
